@@ -886,6 +886,28 @@ func sameObj(a, b ssa.Value) bool {
 		if !ok1 || !ok2 || pa.Field != pb.Field || !(pa.X == pb.X || sameObj(pa.X, pb.X)) {
 			return false
 		}
+		if la.Block() == lb.Block() {
+			// both reads in one block: nothing in between may store into the field or be handed the object
+			i, j := instrIndex(la), instrIndex(lb)
+			if i > j {
+				i, j = j, i
+			}
+			for _, in := range la.Block().Instrs[i:j] {
+				switch x := in.(type) {
+				case *ssa.Store:
+					if f2, ok := x.Addr.(*ssa.FieldAddr); ok && f2.Field == pa.Field && types.Identical(f2.X.Type(), pa.X.Type()) {
+						return false
+					}
+				case ssa.CallInstruction:
+					for _, a := range x.Common().Args {
+						if a == pa.X && !calleeLeavesField(x, pa, 0) {
+							return false
+						}
+					}
+				}
+			}
+			return true
+		}
 		written := false
 		allInstrs(la.Parent(), func(in ssa.Instruction) {
 			if st, ok := in.(*ssa.Store); ok {
@@ -1809,4 +1831,45 @@ func literalBoundSafe(lit *ssa.Function, idx, base ssa.Value) bool {
 		}
 	}
 	return true
+}
+
+// calleeLeavesField: the call's static callee is a function of the repository that (with what it calls in the
+// repository, two levels deep) contains no store into the field fa addresses, for any object of that type.
+func calleeLeavesField(c ssa.CallInstruction, fa *ssa.FieldAddr, depth int) bool {
+	g := c.Common().StaticCallee()
+	if g == nil || !inRepo(g) || len(g.Blocks) == 0 {
+		return false
+	}
+	var leaves func(g *ssa.Function, d int) bool
+	seen := map[*ssa.Function]bool{}
+	leaves = func(g *ssa.Function, d int) bool {
+		if seen[g] {
+			return true
+		}
+		seen[g] = true
+		if d > 2 {
+			return false
+		}
+		ok := true
+		allInstrs(g, func(in ssa.Instruction) {
+			switch x := in.(type) {
+			case *ssa.Store:
+				if f2, isF := x.Addr.(*ssa.FieldAddr); isF && f2.Field == fa.Field && types.Identical(f2.X.Type(), fa.X.Type()) {
+					ok = false
+				}
+			case ssa.CallInstruction:
+				if sc := x.Common().StaticCallee(); sc != nil && inRepo(sc) && len(sc.Blocks) > 0 {
+					if !leaves(sc, d+1) {
+						ok = false
+					}
+				} else if sc == nil && !x.Common().IsInvoke() {
+					if _, isB := x.Common().Value.(*ssa.Builtin); !isB {
+						ok = false // a function value: unknown
+					}
+				}
+			}
+		})
+		return ok
+	}
+	return leaves(g, depth)
 }
